@@ -21,6 +21,14 @@ x-span lists; *nothing* about maximal merging).  All theorems quantify over ALL 
 (unbounded size, unbounded coordinates).  The loops of the model run on fuel; the theorems are about
 the functions the driver executes (`Region.or` etc. with their built-in fuel), so they include the
 fact that the fuel never runs out on well-formed operands.
+
+**Partial / guarded**: nothing is `_partial`.  `bbox_den` assumes `InRange` = "the coordinates are C
+`int`s" (true of every region the code can hold; the model's `Int` is unbounded); `bbox_wf` and
+`bbox_empty` have no hypothesis.  (Until /repo 4069cf1 `sraRgnBBox` was wrong for a region ending at
+`INT_MIN+1`; fixed, regression case in corpus/C11.)  The iterator is modelled by the sequence it
+yields (`Region.rects`), not by a small-step model of `sPtrs/ptrPos`; the real iterator is driven in
+all four direction pairs by the correspondence run.  Section `T1` ties the clippers and
+`sraRgnCreateRect`'s guard to the C text itself.
 -/
 namespace VncModel.Props.C11
 open VncModel.Rgn
@@ -113,9 +121,10 @@ theorem bbox_empty : Region.bbox Region.empty = Region.empty := bbox_nil
 
 /-- `sraRgnBBox` of a non-empty region is the single rectangle that is the TIGHT bounding box of
 the pixel set: it contains every pixel, and each of its four sides touches the region.
-Guard (`InRange`): coordinates are C `int`s and no span starts at `INT_MIN` — the `1-INT_MAX` seed
-of `xmax/ymax` in the code is wrong for a region that ends at `INT_MIN+1` (see docs/C11.md; that
-point is executed on the real code by the check). -/
+`InRange` only says that the coordinates are C `int`s (`INT_MIN ≤ s`, `e ≤ INT_MAX`) — true of every
+region the C code can hold; it is needed because the model computes in unbounded `Int` while the
+code starts from the seeds `INT_MAX` / `INT_MIN` (/repo 4069cf1; the former `1-INT_MAX` seed was
+wrong for a region ending at `INT_MIN+1`, regression case corpus/C11/bbox_int_min.txt). -/
 theorem bbox_den (r : Region) (hwf : r.WF) (hr : InRange r) (hne : r ≠ []) :
     ∃ x1 y1 x2 y2, r.bbox = [⟨y1, y2, [⟨x1, x2, ()⟩]⟩] ∧ x1 < x2 ∧ y1 < y2 ∧
       (∀ x y, r.bbox.den x y ↔ (x1 ≤ x ∧ x < x2 ∧ y1 ≤ y ∧ y < y2)) ∧
@@ -126,20 +135,24 @@ theorem bbox_den (r : Region) (hwf : r.WF) (hr : InRange r) (hne : r ≠ []) :
     intro x y; rw [he]; simp [Region.den, XList.den]; omega
   exact ⟨x1, y1, x2, y2, he, h1, h2, hd, fun x y h => (hd x y).mpr (h3 x y h), h4, h5, h6, h7⟩
 
-theorem bbox_wf (r : Region) (hwf : r.WF) (hr : InRange r) : r.bbox.WF := by
-  by_cases hne : r = []
-  · subst hne; rw [bbox_nil]; trivial
-  · obtain ⟨x1, y1, x2, y2, he, h1, h2, _⟩ := bbox_spec r hwf hr hne
-    rw [he]
-    exact ⟨h2, ⟨⟨h1, trivial, trivial⟩, by simp⟩, trivial⟩
+/-- `sraRgnBBox` covers the region — for EVERY region, no hypothesis -/
+theorem bbox_covers (r : Region) (x y : Int) (h : r.den x y) : r.bbox.den x y :=
+  VncModel.Rgn.bbox_covers r x y h
 
-/-- non-vacuity: a well-formed, non-empty region inside the guard, and its box -/
+/-- the result of `sraRgnBBox` is well-formed — for EVERY argument -/
+theorem bbox_wf (r : Region) : r.bbox.WF := bbox_wf_all r
+
+/-- non-vacuity: a well-formed, non-empty region with `int` coordinates, and its box -/
 example : Region.bbox [⟨0, 2, [⟨0, 3, ()⟩, ⟨3, 5, ()⟩]⟩, ⟨7, 9, [⟨-4, 1, ()⟩]⟩] = [⟨0, 9, [⟨-4, 5, ()⟩]⟩] := by
   decide
 
-/-- non-vacuity of the guard -/
-example : InRange [⟨0, 2, [⟨0, 3, ()⟩, ⟨3, 5, ()⟩]⟩, ⟨7, 9, [⟨-2147483647, 2147483647, ()⟩]⟩] := by
+/-- non-vacuity of `InRange`: the whole `int` range is allowed, `INT_MIN` included -/
+example : InRange [⟨0, 2, [⟨0, 3, ()⟩, ⟨3, 5, ()⟩]⟩, ⟨7, 9, [⟨-2147483648, 2147483647, ()⟩]⟩] := by
   simp [InRange, intMax]
+
+/-- the former defect's witness: a region ending at `INT_MIN+1` now gets its exact box -/
+example : Region.bbox [⟨0, 5, [⟨-2147483648, -2147483647, ()⟩]⟩] = [⟨0, 5, [⟨-2147483648, -2147483647, ()⟩]⟩] := by
+  decide
 
 /-! ## iteration: `sraRgnGetIterator` / `sraRgnGetReverseIterator` / `sraRgnIteratorNext`
 
